@@ -137,6 +137,24 @@ func runDecoder(input []byte, frags, bufs []int, tailFail, ewd bool) string {
 }
 
 func (c *Ctx) fragmentation(total int) []int {
+	if total > 5000 {
+		// large streams: coarse fragmentations only (the Lean model is list-based and slows down
+		// quadratically with the number of fragments)
+		switch c.Rng.Intn(3) {
+		case 0:
+			return nil
+		case 1:
+			return []int{total / 2}
+		default:
+			var f []int
+			for s := 0; s < total; {
+				k := 1 + c.Rng.Intn(1+total/3+1)
+				f = append(f, k)
+				s += k
+			}
+			return f
+		}
+	}
 	switch c.Rng.Intn(6) {
 	case 0:
 		return nil // one piece
@@ -173,6 +191,9 @@ func (c *Ctx) bufSchedule(payloadLen int) []int {
 	var bufs []int
 	need := payloadLen + 1
 	mode := c.Rng.Intn(5)
+	if payloadLen > 5000 {
+		mode = []int{0, 3}[c.Rng.Intn(2)]
+	}
 	for sum := 0; sum < need; {
 		var b int
 		switch mode {
@@ -184,6 +205,9 @@ func (c *Ctx) bufSchedule(payloadLen int) []int {
 			b = 1 + c.Rng.Intn(4)
 		case 3:
 			b = 1 + c.Rng.Intn(payloadLen+2)
+			if payloadLen > 5000 && b < payloadLen/8 {
+				b = payloadLen / 8
+			}
 		default:
 			b = 3
 		}
@@ -215,6 +239,11 @@ func runC12(c *Ctx) {
 			sz := sizes[c.Rng.Intn(len(sizes))]
 			if sz > 300 && i > 0 {
 				sz = sizes[c.Rng.Intn(8)]
+			}
+			// the Lean model appends list by list (quadratic under 1-byte fragmentation): large
+			// chunks are drawn rarely so that the thorough tier stays within minutes
+			if sz > 4000 && c.Rng.Intn(10) != 0 || sz > 30000 && c.Rng.Intn(5) != 0 {
+				sz = sizes[c.Rng.Intn(10)]
 			}
 			ch := c.mkChunk(c.randBytes(sz))
 			cs = append(cs, ch)
